@@ -41,8 +41,9 @@ def high_level_case(prop='C14'):
     """the program itself on a ruleset whose Markov levels include levels above 10 (a level is a sum of costs; the trainer lists 1..18):
     the default run goes through all of them and emits, beside the Markov strings, exactly what `--skip_brute` emits"""
     from collections import Counter
-    om = {'ngram': 2, 'alphabet': ['a', 'b'], 'ip': [[0, 'a'], [1, 'b']], 'ep': [[0, 'a'], [0, 'b']],
-          'cp': [[0, 'aa'], [10, 'ab'], [10, 'ba'], [10, 'bb']], 'ln': [10, 0, 1, 1], 'keyspace': []}
+    # (the second letter of the alphabet is the space character: n-grams that begin and end with a blank)
+    om = {'ngram': 2, 'alphabet': ['a', ' '], 'ip': [[0, 'a'], [1, ' ']], 'ep': [[0, 'a'], [0, ' ']],
+          'cp': [[0, 'aa'], [10, 'a '], [10, ' a'], [10, '  ']], 'ln': [10, 0, 1, 1], 'keyspace': []}
     spec = {'terminals': {'D1': [['1', '0.5'], ['2', '0.25'], ['3', '0.125']], 'A2': [['ab', '0.5'], ['cd', '0.25']], 'C2': [['LL', '0.75'], ['UL', '0.25']]},
             'grammar': [['D1', '0.25'], ['M', '0.5'], ['A2D1', '0.25']],
             # (levels of strings whose transitions are all at the highest level: `bab` = 1 + 1 + 10 + 10, `abbb` = 1 + 0 + 10 + 10 + 10)
